@@ -56,6 +56,8 @@ type sess struct {
 	ntok   int
 	bad    bool
 	fdir   string
+	eng    string // engine and index violations are reported under ("" = session, idx)
+	eidx   int
 }
 
 func (z *sess) ev(f string, a ...any) {
@@ -63,7 +65,11 @@ func (z *sess) ev(f string, a ...any) {
 }
 
 func (z *sess) viol(key, what string) {
-	z.r.Violate("session", z.idx, key, what, map[string]any{"timeline": z.events, "terminal_tail": tail(z.s.P.Clean(), 2500)})
+	eng, idx := "session", z.idx
+	if z.eng != "" {
+		eng, idx = z.eng, z.eidx
+	}
+	z.r.Violate(eng, idx, key, what, map[string]any{"timeline": z.events, "terminal_tail": tail(z.s.P.Clean(), 2500)})
 }
 
 func tail(s string, n int) string {
@@ -231,7 +237,7 @@ func runLockOrder(r *mon.Run, bin string, idx int) {
 		return
 	}
 	defer s.Close()
-	z := &sess{r: r, idx: 1000 + idx, s: s, t0: time.Now()}
+	z := &sess{r: r, idx: 1000 + idx, s: s, t0: time.Now(), eng: "lockorder", eidx: idx}
 	io, err := crs.OpenIO(s.Addr)
 	if err != nil {
 		r.Inconclusive(err.Error())
@@ -582,7 +588,7 @@ func (z *sess) judge(withCtrlO bool) {
 }
 
 func Run(r *mon.Run) {
-	r.Rule = "real -race binary on a pty with a fake shell over raw TLS sending numbered tokens; per session several mute cycles drawn from {continuous flood with Ctrl+O in the middle, burst, gaps of 1.5 s (must stay muted), gap above 2 s (must un-mute in between), Ctrl+O before any output}, with status lines (file requests) and a repeated Ctrl+O while muted, plus sessions without any Ctrl+O. All times come from one monotonic clock in the harness: s_i just before token i is sent, typed/announcement times as read from the pty. Verdicts are sound under load: a suppressed token with un-mute announced < 2 s after s_i; a token on the terminal before (Ctrl+O typed | previous suppressed token sent) + 2 s; a token sent after the un-muting announcement was read not displayed; a status line missing; any token missing in a session without Ctrl+O; no un-mute within 2 s + 20 s of calm while a canary request is answered. distinct = distinct (cycle kinds, token count) sessions; all sessions are non-trivial (>= 4 tokens)"
+	r.Rule = "real -race binary on a pty with a fake shell over raw TLS sending numbered tokens; per session several mute cycles drawn from {continuous flood with Ctrl+O in the middle, burst, gaps of 1.5 s (must stay muted), gap above 2 s (must un-mute in between), Ctrl+O before any output}, with status lines (file requests) and a repeated Ctrl+O while muted, plus sessions without any Ctrl+O. All times come from one monotonic clock in the harness: s_i just before token i is sent, typed/announcement times as read from the pty. Verdicts are sound under load: a suppressed token with un-mute announced < 2 s after s_i; a token on the terminal before (Ctrl+O typed | previous suppressed token sent) + 2 s; a token sent after the un-muting announcement was read not displayed; a status line missing; any token missing in a session without Ctrl+O; no un-mute within 2 s + 20 s of calm while a canary request is answered. Engine stalled: the program runs with -ctrl-i <0.6-2 MB file>; (preview) Ctrl+J typed while muted must display its whole log message (header and contents); (stall) during a mute the harness stops draining the pty and types Ctrl+J so that the program's write of that message blocks holding the terminal's write lock, a token is sent 1.1-1.6 s after the previous one, the calm timer expires behind the blocked write, the harness drains again 2.3-3 s after the previous token: the suppressed token keeps the mute on for 2 s after it was sent (same rule as above, send and observation times only). distinct = distinct (cycle kinds, token count) sessions; all sessions are non-trivial (>= 4 tokens)"
 	r.Assumptions = []string{"real-time monitoring only: gaps within 0.4 s of the 2 s boundary are not generated", "observation time >= real time, send start <= arrival time"}
 	bin, err := crs.Build(r.Work, "")
 	if err != nil {
@@ -602,6 +608,15 @@ func Run(r *mon.Run) {
 		}
 	})
 	r.Floor("lockorder_sessions", int64(nlo))
+	nst := r.N(4, 16)
+	mon.Parallel(nst, nst, func(i int) {
+		if r.Want("stalled", i) {
+			runStalled(r, bin, i)
+		}
+	})
+	r.Floor("stalled_sessions", int64(nst))
+	r.Floor("stalls", int64(nst))
+	r.Floor("previews_displayed_while_muted", int64(nst))
 	nrp := r.N(4, 16)
 	var suspects []int
 	var smu sync.Mutex
